@@ -436,3 +436,96 @@ func snap(v reflect.Value, ids map[[2]uintptr]int, b *bytes.Buffer) {
 		fmt.Fprintf(b, "%v;", v.Interface())
 	}
 }
+
+// Diff walks two trees in parallel and returns the locus and details of the first difference ("" if none).
+// full: tokens and positions are compared as well. The locus names kinds and fields only.
+func Diff(a, b ast.Vertex, full bool) (locus, what string) {
+	return diff(a, b, full, "root")
+}
+
+func diff(a, b ast.Vertex, full bool, path string) (string, string) {
+	na, nb := IsNil(a), IsNil(b)
+	if na || nb {
+		if na != nb {
+			return "child present on one side only at " + path, fmt.Sprintf("%s vs %s", KindName(a), KindName(b))
+		}
+		return "", ""
+	}
+	ka, kb := KindName(a), KindName(b)
+	if ka != kb {
+		return "node kind differs at " + path, ka + " vs " + kb
+	}
+	va, fs := Elem(a)
+	vb, _ := Elem(b)
+	for _, f := range fs {
+		fa, fb := va.Field(f.Idx), vb.Field(f.Idx)
+		at := ka + "." + f.Name
+		switch f.Kind {
+		case FNode:
+			var ca, cb ast.Vertex
+			if !fa.IsNil() {
+				ca = fa.Interface().(ast.Vertex)
+			}
+			if !fb.IsNil() {
+				cb = fb.Interface().(ast.Vertex)
+			}
+			if l, w := diff(ca, cb, full, at); l != "" {
+				return l, w
+			}
+		case FNodes:
+			if fa.Len() != fb.Len() {
+				return "list length differs at " + at, fmt.Sprintf("%d vs %d", fa.Len(), fb.Len())
+			}
+			for j := 0; j < fa.Len(); j++ {
+				var ca, cb ast.Vertex
+				if !fa.Index(j).IsNil() {
+					ca = fa.Index(j).Interface().(ast.Vertex)
+				}
+				if !fb.Index(j).IsNil() {
+					cb = fb.Index(j).Interface().(ast.Vertex)
+				}
+				if l, w := diff(ca, cb, full, at); l != "" {
+					return l, w
+				}
+			}
+		case FValue:
+			if !bytes.Equal(fa.Bytes(), fb.Bytes()) {
+				return "value differs at " + at, fmt.Sprintf("%q vs %q", fa.Bytes(), fb.Bytes())
+			}
+		case FPos:
+			if full {
+				pa, pb := posStr(fa.Interface().(*position.Position)), posStr(fb.Interface().(*position.Position))
+				if pa != pb {
+					return "position differs at " + ka + " in " + path, pa + " vs " + pb
+				}
+			}
+		case FTok:
+			if full {
+				ba, bb := &bytes.Buffer{}, &bytes.Buffer{}
+				tokStr(ba, fa.Interface().(*token.Token))
+				tokStr(bb, fb.Interface().(*token.Token))
+				if ba.String() != bb.String() {
+					return "token differs at " + at, ba.String() + " vs " + bb.String()
+				}
+			}
+		case FToks:
+			if full {
+				ba, bb := &bytes.Buffer{}, &bytes.Buffer{}
+				for j := 0; j < fa.Len(); j++ {
+					tokStr(ba, fa.Index(j).Interface().(*token.Token))
+				}
+				for j := 0; j < fb.Len(); j++ {
+					tokStr(bb, fb.Index(j).Interface().(*token.Token))
+				}
+				if ba.String() != bb.String() {
+					return "token list differs at " + at, ba.String() + " vs " + bb.String()
+				}
+			}
+		case FOther:
+			if full && fmt.Sprint(fa.Interface()) != fmt.Sprint(fb.Interface()) {
+				return "field differs at " + at, fmt.Sprintf("%v vs %v", fa.Interface(), fb.Interface())
+			}
+		}
+	}
+	return "", ""
+}
